@@ -3,6 +3,7 @@ package main
 import (
 	"encoding/json"
 	"fmt"
+	"os"
 	"runtime"
 	"sort"
 	"strings"
@@ -119,13 +120,15 @@ func compareEval(v evalVector, e M, d *AV, together bool) (kind string, text str
 
 func checkC01(rc *Run) error {
 	rc.Level = "model_checking"
-	nsh := rc.Pick(6, 1)
+	// quick: one of 6 shards of the level-1 grammar (41 600 expressions); thorough: one of 24 shards of the level-2
+	// grammar (452 457 expressions: every operator applied to the output of every operator) - the seed picks the shard
+	nsh := rc.Pick(6, 24)
 	level := rc.Pick(1, 2)
 	shard := int(rc.Seed % int64(nsh))
 	if shard < 0 {
 		shard = -shard
 	}
-	cfg := fmt.Sprintf("CONSTANTS\n Dev = {}\n Level = %d\n NShards = %d\n Shard = %d\n TogEvery = %d\nINIT Init\nNEXT Next\nCHECK_DEADLOCK FALSE\n", level, nsh, shard, rc.Pick(3, 1))
+	cfg := fmt.Sprintf("CONSTANTS\n Dev = {}\n Level = %d\n NShards = %d\n Shard = %d\n TogEvery = %d\nINIT Init\nNEXT Next\nCHECK_DEADLOCK FALSE\n", level, nsh, shard, rc.Pick(3, 3))
 	g, err := runGenEval(rc, "Gen_Eval", "gen", cfg, time.Duration(rc.Pick(10, 60))*time.Minute)
 	if err != nil {
 		return err
@@ -157,6 +160,9 @@ type replayStats struct {
 }
 
 func replayEvalVectors(rc *Run, g *genEvalResult, prop string) replayStats {
+	if os.Getenv("VERIF_ISOLATE") != "" {
+		return replayIsolated(rc, g, prop)
+	}
 	var st replayStats
 	var mu sync.Mutex
 	opset := map[string]bool{}
